@@ -147,12 +147,41 @@ def register(engine):
             ('line', 'implies(result is not None, '
                      'result["line"] == old(self._linenum) and '
                      'self._linenum == old(self._linenum) + 1)'),
-            ('grammar', 'implies(result is not None, in_re(header, HDR))'),
+            # accepted  =>  the line has the grammar's shape, piece by piece
+            # (props/C11 proves that this decomposition is exactly HDR)
+            ('grammar_shape', 'implies(result is not None, header == b"#" + '
+                              'm.group("level") + section_type + b":" + '
+                              'sp_opts(options_str))'),
+            ('grammar_level', 'implies(result is not None, '
+                              'in_re(m.group("level"), DOTS))'),
+            ('grammar_name', 'implies(result is not None, '
+                             'in_re(section_type, NAMES_RE))'),
+            ('grammar_opts', 'implies(result is not None and options_str, '
+                             'in_re(bytes_of(options_str), OPTS))'),
             ('data_frame', 'stream_data(self._fp) == data'),
         ],
         raises={DiffXParseError: 'exc_linenum == old(self._linenum)'},
     )
-    from pyvc.values import VConc
+    from pyvc.values import VConc, VFunc, VBox
+
+    def f_bytes_of(it, args, kw):
+        x = args[0]
+        if isinstance(x, VStr):
+            return x
+        if isinstance(x, VBox):
+            return VStr(z3.If(Val.is_BytesV(x.e), Val.bval(x.e), S('')),
+                        True)
+        return VStr(S(''), True)
+
+    def f_sp_opts(it, args, kw):
+        t = f_bytes_of(it, args, kw).e
+        return VStr(z3.If(z3.Length(t) > 0, z3.Concat(S(' '), t), S('')),
+                    True)
+    engine.spec_funcs['bytes_of'] = VFunc(f_bytes_of, 'bytes_of')
+    engine.spec_funcs['sp_opts'] = VFunc(f_sp_opts, 'sp_opts')
+    engine.spec_funcs['DOTS'] = VConc(z3.Loop(R('.'), 0, 3))
+    engine.spec_funcs['NAMES_RE'] = VConc(NAME_RE)
+    engine.spec_funcs['OPTS'] = VConc(OPTS)
     engine.spec_funcs['HDR'] = VConc(HDR)
     engine.spec_funcs['PAIR'] = VConc(PAIR)
     engine.add(c)
